@@ -55,7 +55,7 @@ static void vx_throws_if(struct error_code *ec, int code)
 #define ERROR_VISIBLE(ec) ((ec) == &vx_throws ? vx_exc : (ec)->value != pika_error_success)
 
 /* ---- masks ---- */
-enum { MK_EMPTY = 0, MK_PU = 1, MK_PROC = 2 };
+enum { MK_EMPTY = 0, MK_PU = 1, MK_PROC = 2, MK_PROC_STALE = 3 };
 struct mask { int kind; size_t core, pu; };
 #define MASK_IS(m, c, p) ((m).kind == MK_PU && (m).core == (c) && (m).pu == (p))
 
@@ -89,19 +89,33 @@ static struct mask topo_init_thread_affinity_mask(struct topo *t, size_t core, s
 static struct mask topo_get_cpubind_mask_main_thread(struct topo *t)
 {
   struct mask m;
+  /* the process mask is NOT an immutable fact: topology::set_cpubind_mask_main_thread (command-line handling of
+   * --pika:process-mask, every runtime start) replaces it.  A read made "earlier" (a value cached in a function-local
+   * static by a previous call, see below) is therefore a stale mask */
   m.kind = MK_PROC; m.core = 0; m.pu = 0;
+  return m;
+}
+/* `static mask_type [const] x = t.get_cpubind_mask_main_thread();` -- the initialiser of a function-local static is evaluated by
+ * the FIRST call that reaches it: the mask in x is the current one only if this is that call */
+static struct mask topo_get_cpubind_mask_cached_in_static(struct topo *t)
+{
+  struct mask m;
+  bool vx_nd_first_call = nondet_bool();
+  m.kind = vx_nd_first_call ? MK_PROC : MK_PROC_STALE; m.core = 0; m.pu = 0;
   return m;
 }
 static bool topo_pu_in_mask(size_t core, size_t pu) { return (core == g_vc && pu == g_vp) ? g_v_inmask : nondet_bool(); }
 /* threads::detail::bit_and(a, b): "a & b is non-empty".  The decoders only intersect the process mask with a PU mask. */
 static bool mask_bit_and(struct mask a, struct mask b)
 {
+  VX_ASSERT(a.kind != MK_PROC_STALE, "the process mask a PU is tested against is the CURRENT one (read in this call), not a value cached by an earlier call: set_cpubind_mask_main_thread may have replaced it since");
   VX_ASSERT(a.kind == MK_PROC && b.kind == MK_PU, "environment model: bit_and is used as (process mask & single-PU mask)");
   return topo_pu_in_mask(b.core, b.pu);
 }
 static bool mask_any(struct mask m) { return m.kind != MK_EMPTY; }
 static size_t mask_count(struct mask m)
 {
+  VX_ASSERT(m.kind != MK_PROC_STALE, "the process mask that is counted is the CURRENT one, not a value cached by an earlier call");
   VX_ASSERT(m.kind == MK_PROC, "environment model: count is used on the process mask");
   return g_proc_count;
 }
